@@ -129,8 +129,34 @@ DELEGATE = {"serialize_u8": "u8", "serialize_u16": "u16", "serialize_u32": "u32"
 
 
 def branch_calls(fn, trait_prefix):
-    """{human: set(method names), nonhuman: set(...)} for a serialize/deserialize fn split on is_human_readable()."""
+    """{human: [...], nonhuman: [...]} — trait-method calls of a serialize/deserialize fn split on is_human_readable():
+    `if h {A} else {B}`, or `if h { return A }` followed by B (the rest of the enclosing block)."""
     out = {"human": [], "nonhuman": [], "split": False}
+
+    def collect(nodes, key):
+        for br in nodes:
+            if br is None:
+                continue
+            for x in core.walk(br):
+                if x.get("k") in ("MethodCall", "Call"):
+                    cal = core.callee_generic(x) or ""
+                    da = (x.get("defargs") if x.get("k") == "MethodCall" else x["f"].get("defargs")) or ""
+                    if cal.startswith(trait_prefix):
+                        out[key].append((cal.rsplit("::", 1)[-1], da, x))
+
+    def block_rest(if_node):
+        """statements / tail expression following `if_node` in the block that directly contains it"""
+        for b in core.walk_fn(fn):
+            if b.get("k") in ("Block", "Loop"):
+                stmts = b["b"]["stmts"]
+                for i, st in enumerate(stmts):
+                    e = st.get("e") if st["k"] != "Let" else st.get("init")
+                    if e is not None and core.strip(e) is core.strip(if_node):
+                        rest = [(x.get("e") if x["k"] != "Let" else x.get("init")) for x in stmts[i + 1:]]
+                        if "expr" in b["b"]:
+                            rest.append(b["b"]["expr"])
+                        return [r for r in rest if r is not None]
+        return []
     for n in core.walk_fn(fn):
         if n.get("k") == "If":
             cnd = core.strip(n["c"])
@@ -140,16 +166,17 @@ def branch_calls(fn, trait_prefix):
                 cnd = core.strip(cnd["e"])
             if cnd.get("k") == "MethodCall" and cnd["m"] == "is_human_readable":
                 out["split"] = True
-                t, f = (n["t"], n.get("f")) if not neg else (n.get("f"), n["t"])
-                for key, br in (("human", t), ("nonhuman", f)):
-                    if br is None:
-                        continue
-                    for x in core.walk(br):
-                        if x.get("k") in ("MethodCall", "Call"):
-                            cal = core.callee_generic(x) or ""
-                            da = (x.get("defargs") if x.get("k") == "MethodCall" else x["f"].get("defargs")) or ""
-                            if cal.startswith(trait_prefix):
-                                out[key].append((cal.rsplit("::", 1)[-1], da, x))
+                then_nodes, else_nodes = [n["t"]], ([n["f"]] if "f" in n else None)
+                if else_nodes is None:
+                    # early return form: the then-branch leaves the function, the rest of the block is the other branch
+                    if any(x.get("k") == "Ret" for x in core.walk(n["t"])):
+                        else_nodes = block_rest(n)
+                    else:
+                        else_nodes = []
+                t, f = (then_nodes, else_nodes) if not neg else (else_nodes, then_nodes)
+                collect(t, "human")
+                collect(f, "nonhuman")
+                out["nodes"] = {"human": t, "nonhuman": f}
                 return out
     return out
 
@@ -220,41 +247,82 @@ def rule_pair(c, prog):
 
 
 def deleg_types(fn, br, callee):
+    """types X for which the branch `br` calls `<X as Serialize>::serialize` / `<X as Deserialize>::deserialize`"""
     out = set()
-    for n in core.walk_fn(fn):
-        if n.get("k") == "If":
-            cnd = core.strip(n["c"])
-            neg = cnd.get("k") == "Unary" and cnd["op"] == "!"
-            if neg:
-                cnd = core.strip(cnd["e"])
-            if cnd.get("k") == "MethodCall" and cnd["m"] == "is_human_readable":
-                t, f = (n["t"], n.get("f")) if not neg else (n.get("f"), n["t"])
-                node = t if br == "human" else f
-                if node is None:
-                    return out
-                for x in core.walk(node):
-                    if x.get("k") in ("MethodCall", "Call") and core.callee_generic(x) == callee:
-                        da = (x.get("defargs") if x.get("k") == "MethodCall" else x["f"].get("defargs")) or ""
-                        m = re.match(r"^<(.+?) as serde_core::", da)
-                        if m:
-                            out.add(m.group(1))
+    nodes = branch_calls(fn, "\0").get("nodes", {}).get(br) or []
+    for node in nodes:
+        for x in core.walk(node):
+            if x.get("k") in ("MethodCall", "Call") and core.callee_generic(x) == callee:
+                da = (x.get("defargs") if x.get("k") == "MethodCall" else x["f"].get("defargs")) or ""
+                m = re.match(r"^<(.+?) as serde_core::", da)
+                if m:
+                    out.add(m.group(1))
     return out
 
 
 def rule_names(c, prog):
     R = "C17.names"
     c.rule(R, "Faces/Axes: the flag<->name tables of Serialize, the human visitor and Debug agree and are bijective; Tags/MaterialColors encode and decode with the same separator / index tables")
+    from sa import sym, wire
+
+    def bit_of_cond(cnd):
+        """B for a condition `(x & B) == B` (what `contains(FLAG)` expands to)"""
+        if isinstance(cnd, tuple) and cnd and cnd[0] == "op" and cnd[1] == "==" and cnd[3][0] == "c" and isinstance(cnd[3][1], int):
+            l = cnd[2]
+            if l[0] == "op" and l[1] == "&" and l[3] == cnd[3]:
+                return cnd[3][1]
+        return None
+
+    def flag_names(fn, sink_rx, arg_idx):
+        """{bit: name} from the symbolic paths of a function that emits a name under `contains(FLAG)` — unrolled
+        `if` statements or a loop over a constant (flag, name) table alike"""
+        def sink(I, n, path, arg_nodes, env):
+            args = [I.eval(a, env) for a in arg_nodes]
+            I.emit(("sink", "name", ("tup", tuple(args)), core.loc(n)))
+            return sym.var(sym.OK, sym.UNIT)
+        prims = [(re.compile(sink_rx), sink), (re.compile(r"Serializer::is_human_readable$"), lambda I, n, p, a, e: sym.C(True))]
+        env = {prm["lid"]: ("in", prm["name"]) for prm in fn.params}
+        I, val, ex = wire.run_region(prog, fn.body, env, prims, depth=6)
+        out = {}
+
+        def walk(evs, conds):
+            for e in evs:
+                if e[0] == "alt":
+                    for alt in e[1]:
+                        walk(alt[1], conds + [alt[0]])
+                elif e[0] == "rep":
+                    walk(e[2], conds)
+                elif e[0] == "sink":
+                    bits = [b for b in (bit_of_cond(cnd) for cnd in conds) if b is not None]
+                    nm = e[2][1][arg_idx]
+                    if len(bits) == 1 and nm[0] == "c":
+                        out[bits[-1]] = nm[1]
+        walk(I.events, [])
+        return out
+
+    def const_bit(path_node):
+        """integer bit of a flag constant (Faces::RIGHT / FaceFlags::RIGHT)"""
+        I = wire.WireInterp(prog, prims=[], depth=4)
+        t = I.eval(path_node, {})
+        ints = []
+
+        def rec(x):
+            if isinstance(x, tuple) and x:
+                if x[0] == "c" and isinstance(x[1], int):
+                    ints.append(x[1])
+                for y in x:
+                    rec(y)
+        rec(t)
+        return ints[0] if len(ints) == 1 else None
     for ty, flags in (("rbx_types::faces::Faces", "rbx_types::faces::FaceFlags"), ("rbx_types::axes::Axes", "rbx_types::axes::AxisFlags")):
         ser = prog.impl_fn(SER, ty, "serialize")
-        smap = {}
-        for n in core.walk_fn(ser):
-            if n.get("k") == "If":
-                cnd = core.strip(n["c"])
-                if cnd.get("k") == "MethodCall" and cnd["m"] == "contains":
-                    flag = core.strip(cnd["args"][0]).get("def", "").rsplit("::", 1)[-1]
-                    names = [core.lit_value(x["args"][0]) for x in core.walk(n["t"]) if x.get("k") == "MethodCall" and x["m"] == "serialize_element"]
-                    if len(names) == 1:
-                        smap[flag] = names[0]
+        dbg = prog.impl_fn("core::fmt::Debug", ty, "fmt")
+        try:
+            smap = flag_names(ser, r"SerializeSeq::serialize_element$", 1)
+            dmap = flag_names(dbg, r"::write$", -1)
+        except sym.Unsupported as e:
+            c.violation(R, f"{ty}|cannot-analyse", f"{ty}: Serialize / Debug are outside the symbolic model: {e}", ser.sp, instance=f"{ty}:ser-vs-visitor")
+            continue
         vis = [i for i in prog.impls if i.get("trait") == VIS and i["self"].startswith(ty.rsplit("::", 1)[0] + "::serde_impl::")]
         vmap = {}
         for v in vis:
@@ -266,19 +334,14 @@ def rule_names(c, prog):
                     for arm in n["arms"]:
                         for alt in tables.pat_alts(arm["pat"]):
                             if alt[0] == "lit" and isinstance(alt[1], str):
-                                for x in core.walk(arm["body"]):
-                                    if x.get("k") == "AssignOp" and x["op"] == "|=":
-                                        vmap[core.strip(x["r"]).get("def", "").rsplit("::", 1)[-1]] = alt[1]
-        dbg = prog.impl_fn("core::fmt::Debug", ty, "fmt")
-        dmap = {}
-        for n in core.walk_fn(dbg):
-            if n.get("k") == "If":
-                cnd = core.strip(n["c"])
-                if cnd.get("k") == "MethodCall" and cnd["m"] == "contains":
-                    flag = core.strip(cnd["args"][0]).get("def", "").rsplit("::", 1)[-1]
-                    names = [core.lit_value(x["args"][-1]) for x in core.walk(n["t"]) if x.get("k") == "MethodCall" and x["m"] == "write"]
-                    if len(names) == 1:
-                        dmap[flag] = names[0]
+                                # the flag constant this name selects: `flags |= FLAG` in the arm, or the arm's value
+                                consts = [x for x in core.walk(arm["body"]) if x.get("k") == "Path" and x.get("def") and (x["def"].startswith(flags + "::") or x["def"].startswith(ty + "::")) and x.get("res", "").startswith(("AssocConst", "Const", "Def(AssocConst"))]
+                                if not consts:
+                                    consts = [x for x in core.walk(arm["body"]) if x.get("k") == "Path" and x.get("def") and (x["def"].startswith(flags + "::") or x["def"].startswith(ty + "::")) and x["def"].rsplit("::", 1)[-1].isupper()]
+                                if len(consts) == 1:
+                                    b = const_bit(consts[0])
+                                    if b is not None:
+                                        vmap[b] = alt[1]
         c.sample({"rule": R, "type": ty, "serialize": smap, "visitor": vmap, "debug": dmap})
         inst = f"{ty}:ser-vs-visitor"
         want = 6 if ty.endswith("Faces") else 3
